@@ -99,8 +99,8 @@ def relaunches(rng, quick):
 def run(c: Check):
     c.rule = ("every (initial directory: fresh / success marker present / stale failure marker) x body outcome "
               "(return, exception, sys.exit(3), sys.exit(0), other BaseException) x signal (KILL, TERM, INT) x "
-              "n-th executed line of run.py or of the task body (quick: every 4th line plus all body points; thorough: "
-              "every line), followed by 1-3 relaunches with random outcomes and deaths; non-trivial = the signal was "
+              "n-th executed line of run.py or of the task body (quick: every 4th line - for outcomes other than return only from the start of the body on - plus all body points; thorough: "
+              "every line; on a directory with a stale failure marker 2 resp. 3 of the outcomes), followed by 1-3 relaunches with random outcomes and deaths; non-trivial = the signal was "
               "delivered, distinct by (initial directory, outcome, signal, line index)")
     if "model/Runner.v" in (COQ / "_CoqProject").read_text():
         c.build()
@@ -120,10 +120,10 @@ def run(c: Check):
 
     scratch = c.scratch()
     cases = []
-    if c.replay:
-        rp = json.load(open(c.replay))["replay"]
+    rp = json.load(open(c.replay))["replay"] if c.replay else None
+    if rp and "launches" in rp:
         cases.append(dict(kind="replay", launches=rp["launches"]))
-    else:
+    else:  # (a replay file without a history names broken obligations: run the whole tier again)
         for g in json.load(open(ROOT / "golden" / "c10.json")):
             cases.append(dict(kind="golden", launches=g["launches"]))
         # reference executions: how many lines each (initial directory, outcome) executes, and which
@@ -138,13 +138,16 @@ def run(c: Check):
             r["lines"] = a["launches"][-1]["lines"]
         cases.extend(refs)
         for r in refs:
-            if c.quick and r["prefix"] == "stale-failed" and r["mode"] not in ("ok", "raise"):
-                continue
+            if r["prefix"] == "stale-failed" and r["mode"] not in (("ok", "raise") if c.quick else ("ok", "raise", "exit3")):
+                continue  # a stale failure marker only adds RmFailed: fewer outcomes there
             lines = r["lines"]
             ns = set(range(1, len(lines) + 1))
             if c.quick:
                 off = c.rng.randrange(4)
                 ns = {n for n in ns if n % 4 == off}
+                if r["mode"] != "ok":  # before the body starts all outcomes execute the same lines
+                    first_body = min(n for n, t in enumerate(lines, 1) if t.startswith("task:"))
+                    ns = {n for n in ns if n >= first_body}
                 if r["prefix"] == "fresh" and r["mode"] in ("ok", "raise"):
                     ns |= {n for n, t in enumerate(lines, 1) if t.startswith("task:")}
             for n in sorted(ns):
@@ -192,6 +195,8 @@ def run(c: Check):
                                                               directory=l["obs"]) for l in x["ans"]])
                  for x in cases if x["kind"] == "sweep"][:3]
     run_lines = sorted({int(t.split(":")[1]) for t in kill_lines if t.startswith("run:")})
+    ref_lines = {t for x in cases if x["kind"] == "ref" for t in x["lines"]}
+    c.extra["executed_lines_never_a_death_point"] = sorted(ref_lines - kill_lines)
     c.extra["death_points"] = dict(run_py_lines=run_lines, task_body_lines=sorted(
         {int(t.split(":")[1]) for t in kill_lines if t.startswith("task:")}))
 
